@@ -186,7 +186,9 @@ CHECKS = {
              "fault-free run. Exhaustive per program, sampled over programs (88 quick / 1600 thorough).",
         note="Single faults plus their sticky/ENOSPC continuation; allocation failure not injected; after the first "
              "reported failure a program only releases and closes, and the torn file is not opened again. The SD "
-             "family joined the search after four library fixes (DESIGN 8.5).",
+             "family joined the search after library fixes (DESIGN 8.5); datasets and images stored through the "
+             "coders, chunked+compressed or external are created with the plain layouts in this search (two guards, "
+             "four known findings with stored replays).",
         tech=TECH % (", fault plans", "exhaustive single-fault enumeration over the recorded I/O trace, differential oracle against the fault-free run"),
     ),
     "C17": dict(
